@@ -93,6 +93,24 @@ AttrCasesS == {[op |-> "split", key |-> [i \in 1..sh.n |-> i % 2], g |-> MkGraph
 KeyMaps(n) == {k \in [1..n -> (IF n <= Split3N THEN 0..2 ELSE 0..1)] : k[1] = 0}
 SplitCases  == UNION {{[op |-> "split", key |-> k, g |-> MkGraph(sh, Unique, Ident, sh.n % 2 = 0)] : k \in KeyMaps(sh.n)} : sh \in BaseShapes}
 
+\* ---------------------------------------------------------------- sink lists that name consumed nodes
+\* A Graph is given by a LIST of sinks, which may also name nodes that other listed nodes consume (fluent graphs list every
+\* node): "all" = every node, ancestors before descendants; "all_rev" = descendants first; "first_terms" = the first node
+\* followed by the terminal nodes.  Each listed node is one sink of the input and must have its counterpart, once, in the result.
+SinkModes == {"all", "all_rev", "first_terms"}
+WithSinks(g, m) == [g EXCEPT !.sinks = IF m = "all" THEN [i \in 1..Len(g.nodes) |-> i]
+                                       ELSE IF m = "all_rev" THEN [i \in 1..Len(g.nodes) |-> Len(g.nodes) + 1 - i]
+                                       ELSE IF m = "first_terms" THEN <<1>> \o SelectSeq(g.sinks, LAMBDA i : i # 1) ELSE @]
+SinkShapes == {sh \in BaseShapes : sh.n >= 2 /\ sh.n <= FullN /\ \E j \in 1..sh.n : sh.ins[j] # <<>>}
+\* (fuse: callbacks that build a new node; one that recycles the parent object is only legitimate when nothing else uses the
+\*  parent, and fuse does not count "is a listed sink" as a use)
+SinkCasesC == {[op |-> "copy", g |-> WithSinks(MkGraph(sh, Unique, Ident, TRUE), m)] : sh \in SinkShapes, m \in SinkModes}
+SinkCasesR == {[op |-> "rename", fn |-> f, g |-> WithSinks(MkGraph(sh, Unique, Ident, TRUE), m)] : sh \in SinkShapes, m \in SinkModes, f \in {"prefix"}}
+SinkCasesF == {[op |-> "fuse", cb |-> cb, g |-> WithSinks(MkGraph(sh, Unique, Ident, TRUE), m)] : sh \in SinkShapes, m \in SinkModes, cb \in {"new", "linear"}}
+SinkCasesD == {[op |-> "dedup", g |-> WithSinks(MkGraph(sh, Same, [i \in 1..sh.n |-> 1], TRUE), m)] : sh \in SinkShapes, m \in SinkModes}
+SinkCasesS == {[op |-> "split", key |-> k, g |-> WithSinks(MkGraph(sh, Unique, Ident, TRUE), m)] :
+                  sh \in SinkShapes, m \in SinkModes, k \in {[i \in 1..3 |-> i % 2], [i \in 1..3 |-> i - 1]}}
+
 \* ---------------------------------------------------------------- expand: outer graph, node x to expand, sub-graph, maps, names
 Ones(n) == [i \in 1..n |-> 1]
 \* sub-graph node names by role: sources share names with the inputs of x ("a", "aa": the default input map applies),
@@ -159,6 +177,9 @@ ExpandCases ==
 \cup UNION {ExpCasesFor(ctx, TRUE, xn, Fork, sch, FALSE, "ns") : ctx \in {O1, O2}, xn \in {"n", "a", "a.a"}, sch \in Schemes}
 \* (F) the second output of the expanded node is called like an attribute of Node / of the sub-graph proxy, and is consumed
 \cup UNION {ExpCasesForO(ctx, TRUE, "n", Fork, Benign, FALSE, "", o2) : ctx \in {O2, O4}, o2 \in AttrNames \cup MoreAttrNames}
+\* (G) sink lists naming consumed nodes, of the outer graph and / or of the sub-graph
+\cup UNION {{[c EXCEPT !.g = WithSinks(c.g, m), !.sub = WithSinks(c.sub, ms)] : m \in SinkModes \cup {""}, ms \in {"all", "all_rev", ""}} \ {c}
+              : c \in UNION {ExpCasesFor(ctx, TRUE, "n", ssh, Benign, FALSE, "") : ctx \in {O1, O2, O4}, ssh \in {Fork, Chain2}}}
 \* (E) two levels: x is expanded (explicit maps), then the spliced leaf "<x>.<sink>" of the result is expanded in turn
 Expand2Cases ==
   UNION {UNION {{[op |-> "expand2", pre |-> "", g |-> c1.g, x |-> c1.x, sub |-> c1.sub, imapNone |-> FALSE, imap |-> c1.imap,
@@ -316,7 +337,8 @@ Post(c, r) == CASE c.op = "copy"   -> PostSame(c, r)
 Generate == JsonSerialize(IOEnv.CASES_FILE,
                SetToSeq(CopyCases) \o SetToSeq(RenameCases) \o SetToSeq(FuseCases) \o SetToSeq(DedupCasesF) \o SetToSeq(SplitCases) \o SetToSeq(ExpandCases) \o SetToSeq(Expand2Cases)
                \o SetToSeq(AttrCasesC) \o SetToSeq(AttrCasesF) \o SetToSeq(AttrCasesR)
-               \o SetToSeq(AttrCasesD) \o SetToSeq(AttrCasesS))
+               \o SetToSeq(AttrCasesD) \o SetToSeq(AttrCasesS)
+               \o SetToSeq(SinkCasesC) \o SetToSeq(SinkCasesR) \o SetToSeq(SinkCasesF) \o SetToSeq(SinkCasesD) \o SetToSeq(SinkCasesS))
 Judge ==
   LET cs == JsonDeserialize(IOEnv.CASES_FILE)
       rs == JsonDeserialize(IOEnv.RESULTS_FILE)
